@@ -133,7 +133,8 @@ def mpi_sanitized(out, vh_asan, vh_plain, wdir, seed, tier):
     valgrind memcheck with more ranks than 2PGF parts (a rank without a job hands its buffer to the reduction untouched)."""
     import glob as _glob
     from . import mpirun
-    runs = [("asan", vh_asan, 3, 0, 4 if tier == "quick" else 14, dict(SAN_ENV)), ("asan", vh_asan, 5, 4, 7 if tier == "quick" else 30, dict(SAN_ENV))]
+    # (the par driver is launched in its quick tier, which has 14 cases)
+    runs = [("asan", vh_asan, 3, 0, 4 if tier == "quick" else 14, dict(SAN_ENV)), ("asan", vh_asan, 5, 4, 7 if tier == "quick" else 14, dict(SAN_ENV))]
     supp = "/usr/share/openmpi/openmpi-valgrind.supp"
     vg = ["valgrind", "--tool=memcheck", "-q", "--error-exitcode=0", "--num-callers=30", "--leak-check=no", "--track-origins=no"] + (["--suppressions=" + supp] if os.path.exists(supp) else [])
     # cases 0 and 1 of `par` are a fixed Hubbard atom (4-6 2PGF parts): with 8 ranks some ranks never get a job
